@@ -37,6 +37,9 @@ def rand_mc_case(rng, truncation=False, timeout=False, n=None):
     c["timeout"] = rng.choice([1, 2, 3, 5, 8, 13]) if timeout else 0
     c["dt"] = 1
     c["script"] = None
+    # a quarter of the cases are the SECOND score() of one fitted object: the first call plays another game (other null
+    # and mean scores, selected by the validation labels) -- nothing of it may survive into the measured call
+    c["warm"] = rng.random() < 0.25
     return c
 
 
@@ -104,7 +107,10 @@ def run_impl(c):
     else:
         util = c03.table_utility(c, hist)
         mean = float(Fraction(*c["mean"]))
-        util.mean_score = lambda *a, **k: mean
+        null = float(Fraction(*c["null"]))
+        phase = {"warm": False}
+        util.mean_score = lambda *a, **k: (mean + 2.5 if phase["warm"] else mean)
+        util.null_score = lambda *a, **k: (null - 3.0 if phase["warm"] else null)
         inner_call = util.__class__.__call__
 
         def noisy(self, *a, **k):      # scramble the global generators DURING the run as well
@@ -137,8 +143,16 @@ def run_impl(c):
             return np.array(p, dtype=int)
 
     class Clock:
+        # first reading (start_time) is 0; every later reading is dt * (evaluations so far) + jump: a stall of `jump`
+        # right after the start, so that the budget may already be exhausted at the very next reading
+        def __init__(self):
+            self.reads = 0
+
         def time(self):
-            return float(Fraction(c["dt"])) * len(hist)
+            self.reads += 1
+            if self.reads == 1:
+                return 0.0
+            return float(Fraction(c["dt"])) * len(hist) + float(Fraction(c.get("jump", 0)))
 
     p = c["prov"]
     if p["kind"] == "forms":
@@ -151,6 +165,15 @@ def run_impl(c):
     imp.randomstate = Script(c["script"]) if c["script"] is not None else Recorder(imp.randomstate)
     X = np.arange(c["rows"], dtype=float).reshape(-1, 1)
     imp.fit(X, np.zeros(c["rows"], dtype=int), provenance=prov)
+    if c.get("warm") and c.get("table") is not None and c["script"] is None:
+        import warnings
+        phase["warm"] = True
+        with warnings.catch_warnings():
+            warnings.simplefilter("ignore")
+            imp.score(np.zeros((1, 1)), np.ones(1, dtype=int))          # another game on the same fitted object
+        phase["warm"] = False
+        del hist[:], drawn[:], marks[:]
+        imp.randomstate = Recorder(np.random.RandomState(c["seed"]))     # the measured call draws the stream from its start
     np.random.seed(c["seed"] * 7 + 3 if c["seed"] < 1000 else 99)
     pyrandom.seed(12345 + c["seed"])
     old_time = sh.time
@@ -190,8 +213,8 @@ def emit(c, o):
     sc = "None" if any(math.isnan(s) or math.isinf(s) for s in scores) else "(Some %s)" % cf.qs(scores)
     P = "(mkMC %s %s %s %s %s)" % (cf.qq(Fraction(*c["null"])), cf.qq(Fraction(*c["mean"])), cf.qq(Fraction(*c["tolr"])),
                                    cf.nat(c["steps"]), cf.qq(c["timeout"]))
-    return "(C04.mkCase %s %s %s %s %s %s %s %s %s %s %s %s)" % (
-        cf.nat(c["n"]), c03.provspec(c["prov"]), c03.table(c), P, cf.qq(Fraction(c["dt"])),
+    return "(C04.mkCase %s %s %s %s %s %s %s %s %s %s %s %s %s)" % (
+        cf.nat(c["n"]), c03.provspec(c["prov"]), c03.table(c), P, cf.qq(Fraction(c["dt"])), cf.qq(Fraction(c.get("jump", 0))),
         cf.lst([cf.nats(p) for p in stream(c)]), cf.qq(c03.tol_of(c)), cf.nat(c.get("uniform", 0)),
         cf.lst([cf.nats(p) for p in o["drawn"]]), sc, cf.lst([cf.bools(h) for h in o["history"]]), cf.nats(o["counts"]))
 
